@@ -113,8 +113,7 @@ def value_json(value, indent=None):
         result = _JSONEncoder(allow_nan=False, indent=indent, separators=(',', ': '), sort_keys=True).encode(value)
     else:
         result = _JSON_ENCODER_DEFAULT.encode(value)
-    result = _R_VALUE_JSON_NUMBER_CLEANUP.sub(r'', result)
-    return _R_VALUE_JSON_NUMBER_CLEANUP2.sub(r'\1', result)
+    return _R_VALUE_JSON_NUMBER_CLEANUP.sub(lambda match: match.group(1) or '', result)
 
 
 class _JSONEncoder(json.JSONEncoder):
@@ -130,8 +129,8 @@ class _JSONEncoder(json.JSONEncoder):
 
 _JSON_ENCODER_DEFAULT = _JSONEncoder(allow_nan=False, separators=(',', ':'), sort_keys=True)
 
-_R_VALUE_JSON_NUMBER_CLEANUP = re.compile(r'\.0*$', re.MULTILINE)
-_R_VALUE_JSON_NUMBER_CLEANUP2 = re.compile(r'\.0*([,}\]])')
+# Matches a JSON string (group 1, kept as is) or the ".0" fraction of an integral number outside of strings
+_R_VALUE_JSON_NUMBER_CLEANUP = re.compile(r'("(?:[^"\\]|\\.)*")|\.0*(?=[,}\]\s]|$)')
 
 
 def value_boolean(value):
